@@ -4,8 +4,9 @@
 // produced file for (schema, rows, options, final history) must be the same
 //
 //	(a) for a fresh writer and for a writer reused through Reset after
-//	    previous lives (closed, flushed, abandoned, failed sink, dictionary
-//	    fallback, WriteRowGroup, SetKeyValueMetadata), for GenericWriter[any],
+//	    previous lives (closed, flushed, abandoned, failed sink, failed buffer
+//	    pool, dictionary fallback, WriteRowGroup, SetKeyValueMetadata of new
+//	    and of configured keys), for GenericWriter[any],
 //	    the deprecated Writer, typed GenericWriter[T], SortingWriter[T] and an
 //	    encrypting writer (pinned file identifier, deterministic nonce source);
 //	(b) for a fresh GenericBuffer and one reused through Reset;
@@ -42,6 +43,7 @@ import (
 	"time"
 
 	"github.com/parquet-go/parquet-go"
+	"github.com/parquet-go/parquet-go/deprecated"
 
 	"verif/harness/core"
 	"verif/harness/gen"
@@ -131,6 +133,208 @@ type bRow struct {
 	U [16]byte  `parquet:"u,uuid"`
 	F [16]byte  `parquet:"f"`
 	O *[16]byte `parquet:"o"`
+}
+
+// oRow: one optional field of every Go kind that has a null index function
+// (null.go: nullIndexFuncOf), written column by column by the typed writer
+// with kernels chosen by the build, and row by row by the reflection path.
+type oInner struct {
+	A int32  `parquet:"a"`
+	B string `parquet:"b"`
+}
+
+type oRow struct {
+	ID   int64            `parquet:"id"`
+	Bool bool             `parquet:"bool,optional"`
+	I    int              `parquet:"i,optional"`
+	I8   int8             `parquet:"i8,optional"`
+	I16  int16            `parquet:"i16,optional"`
+	I32  int32            `parquet:"i32,optional"`
+	I64  int64            `parquet:"i64,optional"`
+	U    uint             `parquet:"u,optional"`
+	U8   uint8            `parquet:"u8,optional"`
+	U16  uint16           `parquet:"u16,optional"`
+	U32  uint32           `parquet:"u32,optional"`
+	U64  uint64           `parquet:"u64,optional"`
+	F32  float32          `parquet:"f32,optional"`
+	F64  float64          `parquet:"f64,optional"`
+	S    string           `parquet:"s,optional"`
+	SD   string           `parquet:"sd,optional,dict"`
+	Y    []byte           `parquet:"y,optional"`
+	A16  [16]byte         `parquet:"a16,optional"`
+	UU   [16]byte         `parquet:"uu,optional,uuid"`
+	A5   [5]byte          `parquet:"a5,optional"`
+	I96  deprecated.Int96 `parquet:"i96,optional"`
+	T    time.Time        `parquet:"t,optional"`
+	G    oInner           `parquet:"g,optional"`
+	PI   *int64           `parquet:"pi,optional"`
+	PS   *string          `parquet:"ps,optional"`
+	PY   *[]byte          `parquet:"py,optional"`
+	PF   *float64         `parquet:"pf,optional"`
+	L    []int32          `parquet:"l,optional"`
+	LS   []string         `parquet:"ls,optional,list"`
+	M    map[string]int32 `parquet:"m,optional"`
+}
+
+// boundary values between null and non-null of every kind: the zero value,
+// values with exactly one non-zero byte (a kernel that tests a narrower or a
+// shifted word misses one of them), the extremes; -0.0 and NaN; nil, empty
+// (also empty with a non-nil pointer: re-sliced) and non-empty slices, strings
+// and maps; nil pointers and pointers to zero values.
+func oneByte(rng *rand.Rand, width int) uint64 {
+	return uint64(1+rng.Intn(255)) << (8 * uint(rng.Intn(width)))
+}
+
+func boundaryInt(rng *rand.Rand, width int) uint64 {
+	switch rng.Intn(6) {
+	case 0, 1:
+		return 0
+	case 2, 3:
+		return oneByte(rng, width)
+	case 4:
+		return ^uint64(0)
+	}
+	return uint64(1) << (8*uint(width) - 1)
+}
+
+var (
+	oBacking  = []byte("a backing array of the harness")
+	oStrBack  = strings.Repeat("backing string ", 2)
+	boundaryF = []float64{0, 0, math.Copysign(0, -1), math.NaN(), 1, -1, math.SmallestNonzeroFloat64, math.Float64frombits(1 << 32), math.Float64frombits(0x8000000000000001), math.Inf(1), 2.5}
+	boundaryG = []float32{0, 0, float32(math.Copysign(0, -1)), float32(math.NaN()), 1, -1, math.SmallestNonzeroFloat32, math.Float32frombits(1 << 16), float32(math.Inf(-1)), 2.5}
+)
+
+func boundaryBytes(rng *rand.Rand) []byte {
+	switch rng.Intn(7) {
+	case 0, 1:
+		return nil
+	case 2:
+		return []byte{}
+	case 3:
+		k := rng.Intn(len(oBacking))
+		return oBacking[k:k] // empty, pointing into an array
+	case 4:
+		return make([]byte, 0, 1+rng.Intn(8))
+	case 5:
+		return []byte{0}
+	}
+	k := rng.Intn(len(oBacking) - 1)
+	return oBacking[k : k+1+rng.Intn(len(oBacking)-k-1) : len(oBacking)]
+}
+
+func boundaryString(rng *rand.Rand) string {
+	switch rng.Intn(6) {
+	case 0, 1:
+		return ""
+	case 2:
+		k := rng.Intn(len(oStrBack))
+		return oStrBack[k:k] // empty, pointing into a string
+	case 3:
+		return "\x00"
+	case 4:
+		return "s" + fmt.Sprint(rng.Intn(6))
+	}
+	k := rng.Intn(len(oStrBack) - 1)
+	return oStrBack[k : k+1+rng.Intn(len(oStrBack)-k-1)]
+}
+
+func boundaryArray(rng *rand.Rand, a []byte) {
+	switch rng.Intn(5) {
+	case 0, 1: // zero
+	case 2, 3:
+		a[rng.Intn(len(a))] = byte(1 + rng.Intn(255))
+	default:
+		for i := range a {
+			a[i] = byte(rng.Intn(256))
+		}
+	}
+}
+
+func genORows(seed int64, n int) []oRow {
+	rng := rand.New(rand.NewSource(seed))
+	rows := make([]oRow, n)
+	for i := range rows {
+		r := &rows[i]
+		r.ID = int64(i)
+		r.Bool = rng.Intn(2) == 0
+		r.I = int(boundaryInt(rng, 8))
+		r.I8 = int8(boundaryInt(rng, 1))
+		r.I16 = int16(boundaryInt(rng, 2))
+		r.I32 = int32(boundaryInt(rng, 4))
+		r.I64 = int64(boundaryInt(rng, 8))
+		r.U = uint(boundaryInt(rng, 8))
+		r.U8 = uint8(boundaryInt(rng, 1))
+		r.U16 = uint16(boundaryInt(rng, 2))
+		r.U32 = uint32(boundaryInt(rng, 4))
+		r.U64 = boundaryInt(rng, 8)
+		r.F32 = boundaryG[rng.Intn(len(boundaryG))]
+		r.F64 = boundaryF[rng.Intn(len(boundaryF))]
+		r.S = boundaryString(rng)
+		r.SD = boundaryString(rng)
+		r.Y = boundaryBytes(rng)
+		boundaryArray(rng, r.A16[:])
+		boundaryArray(rng, r.UU[:])
+		boundaryArray(rng, r.A5[:])
+		r.I96 = deprecated.Int96{uint32(boundaryInt(rng, 4)), uint32(boundaryInt(rng, 4)), uint32(boundaryInt(rng, 4))}
+		switch rng.Intn(4) {
+		case 0, 1: // zero time
+		case 2:
+			r.T = time.Unix(0, 0).UTC() // the epoch is not the zero time
+		default:
+			r.T = time.Unix(int64(rng.Intn(1<<31)), int64(rng.Intn(1000))*1000000).UTC()
+		}
+		switch rng.Intn(4) {
+		case 0, 1:
+		case 2:
+			r.G = oInner{B: boundaryString(rng)}
+		default:
+			r.G = oInner{A: int32(oneByte(rng, 4))}
+		}
+		if rng.Intn(3) != 0 {
+			v := int64(boundaryInt(rng, 8))
+			r.PI = &v
+		}
+		if rng.Intn(3) != 0 {
+			v := boundaryString(rng)
+			r.PS = &v
+		}
+		if rng.Intn(3) != 0 {
+			v := boundaryBytes(rng)
+			r.PY = &v
+		}
+		if rng.Intn(3) != 0 {
+			v := boundaryF[rng.Intn(len(boundaryF))]
+			r.PF = &v
+		}
+		switch rng.Intn(5) {
+		case 0, 1:
+		case 2:
+			r.L = []int32{}
+		case 3:
+			r.L = make([]int32, 0, 4)
+		default:
+			for k := 1 + rng.Intn(3); k > 0; k-- {
+				r.L = append(r.L, int32(boundaryInt(rng, 4)))
+			}
+		}
+		switch rng.Intn(4) {
+		case 0:
+		case 1:
+			r.LS = []string{}
+		default:
+			for k := 1 + rng.Intn(3); k > 0; k-- {
+				r.LS = append(r.LS, boundaryString(rng))
+			}
+		}
+		switch rng.Intn(4) {
+		case 0, 1:
+		case 2:
+			r.M = map[string]int32{}
+		default: // one entry: no iteration order
+			r.M = map[string]int32{boundaryString(rng): int32(boundaryInt(rng, 4))}
+		}
+	}
+	return rows
 }
 
 func genBRows(seed int64, n int) []bRow {
@@ -245,6 +449,11 @@ type spec struct {
 	DictMax int64    `json:"dict_max,omitempty"` // DictionaryMaxBytes override (forces the fallback to PLAIN)
 	KV      int      `json:"kv,omitempty"`       // number of key/value pairs in the configuration (a Go map)
 	Extra   int      `json:"extra,omitempty"`    // rows available to previous lives
+	FinalKV int      `json:"final_kv,omitempty"` // SetKeyValueMetadata calls of the file under test: 1 overrides a configured key, 2 adds a key, 3 both
+	WBuf    int      `json:"wbuf,omitempty"`     // WriteBufferSize: 0 = the default (32 KiB), -1 = unbuffered, n = n bytes
+	Dedupe  bool     `json:"dedupe,omitempty"`   // sorting: DropDuplicatedRows
+	Keys    int      `json:"keys,omitempty"`     // sorting: number of distinct sorting keys over ALL rows, previous lives included (0 = every row its own key, previous lives apart)
+	Desc    bool     `json:"desc,omitempty"`     // sorting: descending
 }
 
 func (s spec) key() string { b, _ := json.Marshal(s); return string(b) }
@@ -259,6 +468,18 @@ type pooled interface {
 	Reset(io.Writer)
 	SetKV(k, v string)
 }
+
+// bufferFailer: writers whose buffer pools (SortingBuffers) can be made to fail.
+type bufferFailer interface {
+	// SetBufferFail: at >= 0 - the buffers of the pool accept at more bytes,
+	// then every Write fails (read: every Read fails instead); at < 0 - the
+	// pool works.
+	SetBufferFail(at int, read bool)
+}
+
+// kvKey / kvVal: the key/value strings of the numbers the model uses.
+func kvKey(k int) string { return fmt.Sprintf("key-%02d", k) }
+func kvVal(v int) string { return fmt.Sprintf("value %d", v) }
 
 type pooledBuffer interface {
 	WriteIdx(lo, hi int) error
@@ -388,6 +609,75 @@ func (p *anyPool[T]) SetKV(k, v string) { p.w.SetKeyValueMetadata(k, v) }
 type sortingPool[T any] struct {
 	w    *parquet.SortingWriter[T]
 	rows []T
+	pool *flakyPool
+}
+
+func (p *sortingPool[T]) SetBufferFail(at int, read bool) {
+	p.pool.failAt, p.pool.failRead, p.pool.n = at, read, 0
+}
+
+// flakyPool is the SortingBuffers pool of the sorting family: in-memory
+// buffers which, while failAt >= 0, accept failAt more bytes and then fail.
+type flakyPool struct {
+	failAt   int
+	failRead bool
+	n        int
+}
+
+var errPool = errors.New("c17: buffer of the pool failed")
+
+type flakyBuffer struct {
+	pool *flakyPool
+	data []byte
+	off  int64
+}
+
+func (p *flakyPool) GetBuffer() io.ReadWriteSeeker { return &flakyBuffer{pool: p} }
+func (p *flakyPool) PutBuffer(io.ReadWriteSeeker)  {}
+
+func (b *flakyBuffer) Write(p []byte) (int, error) {
+	var err error
+	if pl := b.pool; pl.failAt >= 0 && !pl.failRead {
+		if pl.n+len(p) > pl.failAt {
+			p, err = p[:max(0, pl.failAt-pl.n)], errPool
+		}
+		pl.n += len(p)
+	}
+	if n := int(b.off) + len(p); n > len(b.data) {
+		b.data = append(b.data, make([]byte, n-len(b.data))...)
+	}
+	copy(b.data[b.off:], p)
+	b.off += int64(len(p))
+	return len(p), err
+}
+
+func (b *flakyBuffer) Read(p []byte) (int, error) {
+	if pl := b.pool; pl.failAt >= 0 && pl.failRead {
+		if pl.n+len(p) > pl.failAt {
+			return 0, errPool
+		}
+		pl.n += len(p)
+	}
+	if b.off >= int64(len(b.data)) {
+		return 0, io.EOF
+	}
+	n := copy(p, b.data[b.off:])
+	b.off += int64(n)
+	return n, nil
+}
+
+func (b *flakyBuffer) Seek(offset int64, whence int) (int64, error) {
+	switch whence {
+	case io.SeekCurrent:
+		offset += b.off
+	case io.SeekEnd:
+		offset += int64(len(b.data))
+	}
+	if offset < 0 {
+		return 0, errors.New("c17: seek before the start of the buffer")
+	}
+	b.off = offset
+	return offset, nil
 }
 
 func (p *sortingPool[T]) WriteIdx(lo, hi int) error {
@@ -421,6 +711,19 @@ func kvOptions(n int) []parquet.WriterOption {
 	return o
 }
 
+// wbufOption: the WriteBufferSize of a spec (a failing sink is seen when the
+// buffer in front of it overflows: with the default 32 KiB, small files fail at
+// Close only).
+func wbufOption(sp spec) []parquet.WriterOption {
+	switch {
+	case sp.WBuf < 0:
+		return []parquet.WriterOption{parquet.WriteBufferSize(0)}
+	case sp.WBuf > 0:
+		return []parquet.WriterOption{parquet.WriteBufferSize(sp.WBuf)}
+	}
+	return nil
+}
+
 func histOf(seed int64, n int) []int { return gen.GenHistory(rand.New(rand.NewSource(seed^0x17)), n) }
 
 var c17Key = []byte("0123456789abcdef")
@@ -447,13 +750,18 @@ func typedFactory[T any](sp spec, rows []T, n int, sortCol string, maxRows int64
 			cols := parquet.SchemaOf(new(T)).Columns()
 			o = append(o, parquet.SortingWriterConfig(parquet.SortingColumns(parquet.NullsFirst(parquet.Descending(cols[len(cols)-1]...)))))
 		}
-		return append(o, kvOptions(sp.KV)...)
+		return append(append(o, wbufOption(sp)...), kvOptions(sp.KV)...)
 	}
 	switch {
 	case sp.Family == "sorting":
 		f.mk = func(sink io.Writer) pooled {
-			o := append(opts(), parquet.SortingWriterConfig(parquet.SortingColumns(parquet.Ascending(sortCol))))
-			return &sortingPool[T]{w: parquet.NewSortingWriter[T](sink, 37, o...), rows: rows}
+			col := parquet.Ascending(sortCol)
+			if sp.Desc {
+				col = parquet.Descending(sortCol)
+			}
+			pool := &flakyPool{failAt: -1}
+			o := append(opts(), parquet.SortingWriterConfig(parquet.SortingColumns(col), parquet.DropDuplicatedRows(sp.Dedupe), parquet.SortingBuffers(pool)))
+			return &sortingPool[T]{w: parquet.NewSortingWriter[T](sink, 37, o...), rows: rows, pool: pool}
 		}
 	case sp.API == "writer":
 		f.mk = func(sink io.Writer) pooled {
@@ -507,7 +815,7 @@ func build(sp spec) (f *factory, ok bool) {
 			f.maxRows = b.Opts.MaxRows
 		}
 		opts := func() []parquet.WriterOption {
-			return append(append([]parquet.WriterOption{b.Schema}, b.Opts.WriterOptions(b.Root)...), kvOptions(sp.KV)...)
+			return append(append(append([]parquet.WriterOption{b.Schema}, b.Opts.WriterOptions(b.Root)...), wbufOption(sp)...), kvOptions(sp.KV)...)
 		}
 		f.mk = func(sink io.Writer) pooled {
 			if sp.API == "writer" {
@@ -529,6 +837,13 @@ func build(sp spec) (f *factory, ok bool) {
 			rows[i].D += 50
 			rows[i].S = "zzzz-" + rows[i].S
 			rows[i].Q = -1e9
+		}
+		if sp.Keys > 0 {
+			// a chosen number of distinct sorting keys shared by the file and the previous lives
+			krng := rand.New(rand.NewSource(sp.Case.Seed ^ 0x4b))
+			for i := range rows {
+				rows[i].ID = int64(krng.Intn(sp.Keys)) * 5
+			}
 		}
 		mrng := rand.New(rand.NewSource(sp.Case.Seed ^ 0x77))
 		maxRows := int64(0)
@@ -566,6 +881,12 @@ func build(sp spec) (f *factory, ok bool) {
 		return typedFactory(sp, rows, n, "u", 0, func() []parquet.WriterOption {
 			return []parquet.WriterOption{parquet.DataPageVersion(1 + int(sp.Case.Seed&1)), parquet.PageBufferSize(1 << 12)}
 		}), true
+	case "opt":
+		n := sp.Case.NRows
+		rows := genORows(sp.Case.Seed, n+sp.Extra)
+		return typedFactory(sp, rows, n, "id", 0, func() []parquet.WriterOption {
+			return []parquet.WriterOption{parquet.DataPageVersion(1 + int(sp.Case.Seed&1)), parquet.PageBufferSize([]int{96, 1 << 12, 1 << 16}[uint64(sp.Case.Seed)%3])}
+		}), true
 	case "encrypted":
 		n := sp.Case.NRows
 		rows := genTRows(sp.Case.Seed, n+sp.Extra)
@@ -591,11 +912,13 @@ func build(sp spec) (f *factory, ok bool) {
 
 // life is one previous use of the writer.
 type life struct {
-	Kind   string `json:"kind"` // closed | flushes | abandon | sinkfail | rowgroup | kv | empty
+	Kind   string `json:"kind"` // closed | flushes | abandon | sinkfail | bufferfail | rowgroup | kv | empty
 	Lo     int    `json:"lo"`   // rows [Lo, Hi) of the extra rows
 	Hi     int    `json:"hi"`
 	FailAt int    `json:"fail_at,omitempty"`
 	Batch  int    `json:"batch,omitempty"`
+	Read   bool   `json:"read,omitempty"`    // bufferfail: the buffers fail when read (the merge on Close) instead of when written
+	KVMode int    `json:"kv_mode,omitempty"` // kv: 0 new key then override of a configured key | 1 override then new key | 2 override only | 3 every configured key overridden, new key, override again
 }
 
 func (l life) sink() io.Writer {
@@ -628,9 +951,26 @@ func runLife(w pooled, f *factory, l life) (ops []string) {
 		ops = append(ops, "c")
 		_ = w.Close()
 	case "kv":
-		w.SetKV("zz-previous-life", "x")
-		w.SetKV("key-00", "overwritten")
-		ops = append(ops, "k63=1", "k0=63")
+		set := func(k, v int) {
+			w.SetKV(kvKey(k), kvVal(v))
+			ops = append(ops, fmt.Sprintf("k%x=%x", k, v))
+		}
+		switch l.KVMode {
+		case 1:
+			set(0, 99)
+			set(99, 1)
+		case 2:
+			set(0, 99)
+		case 3:
+			for k := f.sp.KV - 1; k >= 0; k-- {
+				set(k, 90+k)
+			}
+			set(98, 2)
+			set(0, 97)
+		default:
+			set(99, 1)
+			set(0, 99)
+		}
 		if w1(lo, hi) {
 			ops = append(ops, "c")
 			_ = w.Close()
@@ -653,6 +993,30 @@ func runLife(w pooled, f *factory, l life) (ops []string) {
 			}
 		}
 		ops = append(ops, "a")
+	case "bufferfail":
+		// a buffer pool of the writer fails (SortingWriter: the buffer holding the
+		// sorted chunks); the file is given up at the first error.  Writers
+		// without such a pool: an abandoned file.
+		bf, _ := w.(bufferFailer)
+		if bf != nil {
+			bf.SetBufferFail(l.FailAt, l.Read)
+			defer bf.SetBufferFail(-1, false)
+		}
+		for a := lo; a < hi; a += batch {
+			if !w1(a, min(a+batch, hi)) {
+				return
+			}
+			ops = append(ops, "f")
+			if w.Flush() != nil {
+				return
+			}
+		}
+		if bf != nil {
+			ops = append(ops, "c")
+			_ = w.Close() // what the write buffer still holds reaches the failing buffer now
+		} else {
+			ops = append(ops, "a")
+		}
 	case "sinkfail":
 		// the model's FailWrite fails the flush after some events; which bytes
 		// the broken sink accepted is irrelevant after Reset
@@ -690,6 +1054,11 @@ func runLife(w pooled, f *factory, l life) (ops []string) {
 // finalLife writes the file under test: the final history over rows [0, n).
 func finalLife(w pooled, f *factory) (ops []string, err error) {
 	i := 0
+	if f.sp.FinalKV&1 != 0 {
+		w.SetKV(kvKey(0), kvVal(77))
+		ops = append(ops, fmt.Sprintf("k%x=%x", 0, 77))
+	}
+
 	for _, h := range f.hist {
 		if h < 0 {
 			ops = append(ops, "f")
@@ -703,6 +1072,10 @@ func finalLife(w pooled, f *factory) (ops []string, err error) {
 			return ops, fmt.Errorf("write: %w", err)
 		}
 		i += h
+	}
+	if f.sp.FinalKV&2 != 0 {
+		w.SetKV(kvKey(88), kvVal(5))
+		ops = append(ops, fmt.Sprintf("k%x=%x", 88, 5))
 	}
 	ops = append(ops, "c")
 	if err := w.Close(); err != nil {
@@ -1041,12 +1414,55 @@ func (e *env) checkScenario(sc scenario) bool {
 				c.Mismatch("corr:C17.kv", req, fmt.Sprintf("%d pairs %v", len(kv), kv), ans, sc)
 				return false
 			}
+			// the pairs themselves (OpenFile sorts them: compared as sets)
+			if ik, mk := implPairs(kv), modelPairs(ans); ik != mk {
+				c.Mismatch("corr:C17.kv-pairs", req, ik, mk+" <- "+ans, sc)
+				return false
+			}
 			if len(e.vm) < 40 && len(got.ops) < 40 {
 				e.vm = append(e.vm, vmCase(f, sc.Spec.KV, got.ops, rows, len(kv)))
 			}
 		}
 	}
 	return true
+}
+
+// implPairs / modelPairs: the key/value pairs of a footer as sorted "k=v" lists
+// of hex numbers (keys "key-NN", values "value N" on the Go side).
+func implPairs(kv []string) string {
+	var out []string
+	for _, e := range kv {
+		var k, v int
+		if _, err := fmt.Sscanf(e, "key-%d=value %d", &k, &v); err != nil {
+			out = append(out, e)
+			continue
+		}
+		out = append(out, fmt.Sprintf("%04x=%x", k, v))
+	}
+	sort.Strings(out)
+	return strings.Join(out, ",")
+}
+
+func modelPairs(ans string) string {
+	i := strings.Index(ans, "kv=")
+	if i < 0 {
+		return "?"
+	}
+	s := ans[i+3:]
+	if s == "_" || s == "N" {
+		return ""
+	}
+	var out []string
+	for _, e := range strings.Split(s, ",") {
+		var k, v int
+		if _, err := fmt.Sscanf(e, "%x=%x", &k, &v); err != nil {
+			out = append(out, e)
+			continue
+		}
+		out = append(out, fmt.Sprintf("%04x=%x", k, v))
+	}
+	sort.Strings(out)
+	return strings.Join(out, ",")
 }
 
 func kvCount(ans string) int {
@@ -1349,8 +1765,18 @@ func variantSpecs(c *core.Ctx) []spec {
 		out = append(out, spec{Family: "typed", Case: gen.Case{Seed: 1000 + int64(i), NRows: []int{1, 9, 70, 333}[i%4]}})
 		out = append(out, spec{Family: "rle", Case: gen.Case{Seed: 77 + c.Seed*131 + int64(i), NRows: 20 + 30*i}})
 	}
+	// every optional Go kind at the boundary between null and non-null: the
+	// typed (column-wise, kernels chosen by the build) and the reflection path
+	for i := 0; i < c.N(10, 60); i++ {
+		sp := spec{Family: "opt", Case: gen.Case{Seed: 500 + c.Seed*977 + int64(i), NRows: []int{1, 7, 64, 65, 200, 333}[i%6]}}
+		if i%5 == 4 {
+			sp.API = "writer"
+		}
+		out = append(out, sp)
+	}
 	out = append(out, spec{Family: "typed", API: "writer", Case: gen.Case{Seed: 2000, NRows: 120}})
 	out = append(out, spec{Family: "sorting", Case: gen.Case{Seed: 2001, NRows: 150}})
+	out = append(out, spec{Family: "sorting", Case: gen.Case{Seed: 2002, NRows: 150}, Dedupe: true, Keys: 40, Desc: true})
 	n := c.N(220, 1500)
 	for i := 0; i < n; i++ {
 		cs := gen.Case{Seed: c.Seed*1000003 + 17*int64(i), NRows: []int{1, 5, 40, 130, 300, 700}[i%6], MaxDepth: 1 + i%3, MaxFields: 1 + (i/3)%5, Codecs: allCodecs, NullBias: i % 8}
@@ -1524,11 +1950,21 @@ func livesFor(rng *rand.Rand, f *factory, refLen int, kinds []string) []life {
 		lo := rng.Intn(f.extra/2 + 1)
 		hi := lo + 1 + rng.Intn(f.extra-lo)
 		l := life{Kind: k, Lo: lo, Hi: hi, Batch: 1 + rng.Intn(40)}
-		if k == "sinkfail" {
+		if k == "sinkfail" || k == "bufferfail" {
 			l.FailAt = rng.Intn(refLen + 1)
 			if rng.Intn(4) == 0 {
 				l.FailAt = rng.Intn(8)
 			}
+		}
+		if k == "bufferfail" {
+			l.Read = rng.Intn(4) == 0
+			if rng.Intn(2) == 0 {
+				l.Hi = l.Lo + 1 + rng.Intn(3) // few rows: one small chunk
+				l.FailAt = rng.Intn(200)
+			}
+		}
+		if k == "kv" {
+			l.KVMode = rng.Intn(4)
 		}
 		ls = append(ls, l)
 	}
@@ -1538,7 +1974,7 @@ func livesFor(rng *rand.Rand, f *factory, refLen int, kinds []string) []life {
 var allKinds = []string{"closed", "closed", "flushes", "abandon", "sinkfail", "rowgroup", "kv", "empty"}
 
 func runC17(c *core.Ctx) {
-	c.Res.Rule = "files are produced from (schema, rows, options, write/flush history) given by gen.Case (all codecs, encodings, page versions, nested schemas, dictionaries, bloom filters, statistics, key/value maps) and by typed structs with optional non-pointer fields holding -0.0/NaN/zero values and chosen dictionary index patterns; each scenario compares sha256(reference: fresh writer) with sha256(writer reused through Reset after 1-3 previous lives of kinds closed/flushes/abandon/sinkfail/rowgroup/kv/empty | buffer reused through Reset | other goroutine | after pool churn | poisoned pools | GOMAXPROCS 1 vs many | n-th repetition), and every build variant writes the digests of one fixed case list which the later variants compare with. Non-trivial = the file under test has at least 2 rows; distinct by the JSON of the scenario."
+	c.Res.Rule = "files are produced from (schema, rows, options, write/flush history) given by gen.Case (all codecs, encodings, page versions, nested schemas, dictionaries, bloom filters, statistics, key/value maps, write buffer sizes) and by typed structs: optional non-pointer fields holding -0.0/NaN/zero values, chosen dictionary index patterns, 16-byte values, and one optional field of EVERY Go kind that has a null index function (bool, all integer widths, floats, string, []byte, byte arrays, Int96, time.Time, struct, pointers, slices, map) holding the values at the boundary between null and non-null (zero; exactly one non-zero byte at each position; extremes; -0.0, NaN; nil / empty / empty-with-a-pointer / non-empty slices and strings; nil pointer / pointer to zero); each scenario compares sha256(reference: fresh writer) with sha256(writer reused through Reset after 1-3 previous lives of kinds closed/flushes/abandon/sinkfail/rowgroup/kv (new keys and overrides of CONFIGURED keys in four orders)/empty; SortingWriter: keeping or dropping duplicates, 1-40 distinct keys shared by the file and the previous lives, either direction, and the additional life bufferfail = the pool buffer of the sorted chunks fails after n bytes when written or when read back | buffer reused through Reset | other goroutine | after pool churn | poisoned pools | GOMAXPROCS 1 vs many | n-th repetition); the file under test may itself override a configured key / add a key; every build variant writes the digests of one fixed case list which the later variants compare with. Non-trivial = the file under test has at least 2 rows; distinct by the JSON of the scenario."
 	e := &env{c: c, refs: map[string]outcome{}}
 	savedRand := crand.Reader
 	defer func() { crand.Reader = savedRand }()
@@ -1568,6 +2004,15 @@ func runC17(c *core.Ctx) {
 		// sorted buffer reset without a read
 		{Spec: spec{Family: "typed", Case: gen.Case{Seed: 7, NRows: 40}, Extra: 60}, Mode: "buffer", Prev: 2, Sort: true, Count: 1},
 		{Spec: spec{Family: "sorting", Case: gen.Case{Seed: 8, NRows: 100}, Extra: 90}, Mode: "reset", Lives: []life{{Kind: "abandon", Lo: 0, Hi: 90, Batch: 30}}},
+		// one instance of each added dimension: a configured key overridden (only) in the
+		// previous life and in the file; a sorting writer dropping duplicates whose chunk
+		// buffer failed when written / when read back, all rows sharing one key; the
+		// optional kinds after a previous life
+		{Spec: spec{Family: "typed", Case: gen.Case{Seed: 9, NRows: 3}, Extra: 3, KV: 3}, Mode: "reset", Lives: []life{{Kind: "kv", Lo: 0, Hi: 3, KVMode: 2}}},
+		{Spec: spec{Family: "gen", Case: gen.Case{Seed: 11, NRows: 5, MaxDepth: 1, MaxFields: 2}, Extra: 4, KV: 2, FinalKV: 3}, Mode: "reset", Lives: []life{{Kind: "kv", Lo: 0, Hi: 3, KVMode: 3}}},
+		{Spec: spec{Family: "sorting", Case: gen.Case{Seed: 12, NRows: 50}, Extra: 40, Dedupe: true, Keys: 1, WBuf: 64}, Mode: "reset", Lives: []life{{Kind: "bufferfail", Lo: 0, Hi: 10, FailAt: 100, Batch: 5}}},
+		{Spec: spec{Family: "sorting", Case: gen.Case{Seed: 13, NRows: 50}, Extra: 40, Dedupe: true, Keys: 3, Desc: true, WBuf: 1}, Mode: "reset", Lives: []life{{Kind: "bufferfail", Lo: 0, Hi: 40, FailAt: 50, Batch: 20, Read: true}}},
+		{Spec: spec{Family: "opt", Case: gen.Case{Seed: 14, NRows: 70}, Extra: 50}, Mode: "reset", Lives: []life{{Kind: "flushes", Lo: 0, Hi: 50, Batch: 20}}},
 	}
 	for _, sc := range corpus {
 		e.run(sc, "corpus/"+sc.Mode+"/"+sc.Spec.Family)
@@ -1588,8 +2033,14 @@ func runC17(c *core.Ctx) {
 		if c.Rng.Intn(5) == 0 {
 			sp.DictMax = int64(16 + c.Rng.Intn(100))
 		}
-		if c.Rng.Intn(4) == 0 {
+		if c.Rng.Intn(3) == 0 {
 			sp.KV = 1 + c.Rng.Intn(6)
+		}
+		if c.Rng.Intn(6) == 0 {
+			sp.FinalKV = 1 + c.Rng.Intn(3)
+		}
+		if c.Rng.Intn(3) == 0 {
+			sp.WBuf = []int{-1, 1, 64, 1000}[c.Rng.Intn(4)]
 		}
 		f, ok := build(sp)
 		if !ok {
@@ -1608,7 +2059,7 @@ func runC17(c *core.Ctx) {
 	}
 	nTyped := c.N(120, 1000)
 	for i := 0; i < nTyped; i++ {
-		fam := []string{"typed", "typed", "rle", "sorting", "encrypted", "be128"}[i%6]
+		fam := []string{"typed", "typed", "rle", "sorting", "encrypted", "be128", "opt", "sorting"}[i%8]
 		sp := spec{Family: fam, Case: gen.Case{Seed: c.Seed*104729 + int64(i), NRows: []int{0, 1, 8, 60, 250}[c.Rng.Intn(5)]}, Extra: 16 + c.Rng.Intn(300)}
 		if fam == "typed" && i%3 == 0 {
 			sp.API = "writer"
@@ -1616,8 +2067,21 @@ func runC17(c *core.Ctx) {
 		if c.Rng.Intn(3) == 0 {
 			sp.DictMax = int64(8 + c.Rng.Intn(60))
 		}
-		if c.Rng.Intn(4) == 0 && fam != "encrypted" {
+		if c.Rng.Intn(3) == 0 && fam != "encrypted" {
 			sp.KV = 1 + c.Rng.Intn(5)
+		}
+		if c.Rng.Intn(6) == 0 {
+			sp.FinalKV = 1 + c.Rng.Intn(3)
+		}
+		if c.Rng.Intn(2) == 0 {
+			sp.WBuf = []int{-1, 1, 64, 1000}[c.Rng.Intn(4)]
+		}
+		if fam == "sorting" {
+			// duplicates among the sorting keys, within the file and between the file and
+			// the previous lives; dropped or kept; either direction
+			sp.Dedupe = c.Rng.Intn(3) != 0
+			sp.Keys = []int{0, 1, 2, 3, 7, 40}[c.Rng.Intn(6)]
+			sp.Desc = c.Rng.Intn(2) == 0
 		}
 		f, ok := build(sp)
 		if !ok {
@@ -1630,16 +2094,44 @@ func runC17(c *core.Ctx) {
 		}
 		kinds := allKinds
 		if fam == "sorting" {
-			kinds = []string{"closed", "flushes", "abandon", "sinkfail", "kv", "empty"}
+			kinds = []string{"closed", "flushes", "abandon", "sinkfail", "bufferfail", "bufferfail", "kv", "empty"}
 		}
 		sc := scenario{Spec: sp, Mode: "reset", Lives: livesFor(c.Rng, f, len(ref.bytes), kinds)}
 		e.run(sc, "reset/"+fam+"/"+sc.Lives[0].Kind)
 		if i < 3 {
 			c.Sample(sc)
 		}
-		if i%6 == 0 && fam != "encrypted" && fam != "sorting" {
+		if i%8 == 0 && fam != "encrypted" && fam != "sorting" {
 			e.run(scenario{Spec: sp, Mode: "buffer", Prev: 1 + c.Rng.Intn(3), Sort: c.Rng.Intn(2) == 0, Count: c.Rng.Intn(2)}, "buffer/"+fam)
 		}
+	}
+
+	// ---- SortingWriter: duplicates among the keys and failing lives ----
+	// the sorted chunks go through a buffer pool and a temporary writer, the merge
+	// through the output writer: each of them can fail in a previous life
+	nSort := c.N(400, 4000)
+	for i := 0; i < nSort; i++ {
+		sp := spec{Family: "sorting", Case: gen.Case{Seed: c.Seed*15485863 + int64(i), NRows: []int{1, 2, 8, 40, 60, 120}[c.Rng.Intn(6)]}, Extra: 8 + c.Rng.Intn(150),
+			Dedupe: c.Rng.Intn(4) != 0, Keys: []int{0, 1, 1, 2, 2, 3, 7, 40}[c.Rng.Intn(8)], Desc: c.Rng.Intn(2) == 0}
+		// the temporary writer of the sorted chunks takes the write buffer size of the
+		// configuration (0 = the default there too): a failing chunk buffer is seen by
+		// Flush only when the write buffer is smaller than the chunk
+		sp.WBuf = []int{0, 1, 64, 1000}[c.Rng.Intn(4)]
+		if c.Rng.Intn(4) == 0 {
+			sp.KV = 1 + c.Rng.Intn(3)
+		}
+		f, ok := build(sp)
+		if !ok {
+			continue
+		}
+		ref := e.ref(f)
+		if ref.err != "" {
+			c.Res.Buckets["skipped/reference-error"]++
+			continue
+		}
+		lives := livesFor(c.Rng, f, 2*len(ref.bytes), []string{"bufferfail", "bufferfail", "bufferfail", "bufferfail", "sinkfail", "sinkfail", "abandon", "flushes", "closed", "kv"})
+		sc := scenario{Spec: sp, Mode: "reset", Lives: lives}
+		e.run(sc, "reset/sorting-dup/"+lives[len(lives)-1].Kind)
 	}
 
 	// ---- (c), (d): goroutines, pools, GOMAXPROCS, repetition ----
